@@ -49,6 +49,7 @@ func requesterFor(mode string) requester {
 type rtspRequester struct {
 	c      *rtspc.Client
 	tracks int
+	base   [2]int // first interleaved channel of the video / audio track as this player set them up (SDP order)
 	addr   string // "" = the in-process server (tests of the classification point it at a stub)
 }
 
@@ -98,6 +99,15 @@ func (q *rtspRequester) request(path string, arm func()) (string, *media.Stream,
 		return "panic", nil, "the RTSP requester got neither a stream nor 404 nor a close: " + err.Error()
 	}
 	q.tracks = len(d.Tracks)
+	q.base = [2]int{-1, -1}
+	for i, ct := range rtspc.Controls(d.SDP) { // Play sets up section i on channels 2i, 2i+1
+		switch ct.Media {
+		case "video":
+			q.base[0] = 2 * i
+		case "audio":
+			q.base[1] = 2 * i
+		}
+	}
 	// ipchub answers PLAY before it attaches the player to the stream; what is
 	// published in between is legitimately not for this player. Wait for the attach
 	// (unless the stream is already gone again).
@@ -184,7 +194,7 @@ func (q *rtspRequester) verifyWire(sentAll, live []fakecam.Frame, push func() *f
 		if !ok {
 			return fmt.Sprintf("frame %d received by the RTSP player (channel %d, %d bytes) was never sent by the camera", i, g.Channel, len(g.Payload))
 		}
-		want := byte(2 * f.Track)
+		want := byte(q.base[f.Track])
 		if f.Control {
 			want++
 		}
